@@ -116,7 +116,7 @@ def chain_argspec(func_list, provides, inner_name):
 #funcs[0] = function to call
 #params[0] = parameters to take
 def build_chain_str(funcs, params, inner_name, params_sofar=None, level=0,
-                    func_aliaser=None, func_names=None):
+                    func_aliaser=None, func_names=None, funcs_name='funcs'):
     if not funcs:
         return ''  # stopping case
     if params_sofar is None:
@@ -132,17 +132,33 @@ def build_chain_str(funcs, params, inner_name, params_sofar=None, level=0,
     inner_indent = outer_indent + _INDENT
     outer_arg_str = ', '.join(params[0])
     def_str = '%sdef %s(%s):\n' % (outer_indent, inner_name, outer_arg_str)
-    body_str = build_chain_str(funcs[1:], params[1:], inner_name, params_sofar, level + 1)
+    # a parameter in scope here must not be clobbered by the marker below
+    hide_tb = '__traceback_hide__' not in params_sofar
+    body_str = build_chain_str(funcs[1:], params[1:], inner_name, params_sofar, level + 1,
+                               funcs_name=funcs_name)
     #func_name = get_func_name(funcs[0])
     #func_alias = get_inner_func_alias(funcs[0])
-    htb_str = '%s__traceback_hide__ = True\n' % (inner_indent,)
-    return_str = '%sreturn funcs[%s](%s)\n' % (inner_indent, level, inner_args)
+    htb_str = '%s__traceback_hide__ = True\n' % (inner_indent,) if hide_tb else ''
+    return_str = '%sreturn %s[%s](%s)\n' % (inner_indent, funcs_name, level, inner_args)
     return ''.join([def_str, body_str, htb_str + return_str])
 
 
+def _unused_name(base, taken):
+    # the generated code's own names must not collide with injectable names
+    while base in taken:
+        base = '_' + base
+    return base
+
+
 def compile_chain(funcs, params, inner_name, verbose=_VERBOSE):
-    call_str = build_chain_str(funcs, params, inner_name)
-    return compile_code(call_str, inner_name, {'funcs': funcs}, verbose=verbose)
+    taken = set([inner_name])
+    for p in params:
+        taken.update(p)
+    for f in funcs:
+        taken.update(get_fb(f).get_arg_names())
+    funcs_name = _unused_name('funcs', taken)
+    call_str = build_chain_str(funcs, params, inner_name, funcs_name=funcs_name)
+    return compile_code(call_str, inner_name, {funcs_name: funcs}, verbose=verbose)
 
 
 def compile_code(code_str, name, env=None, verbose=_VERBOSE):
